@@ -1,6 +1,8 @@
 package gen
 
 import (
+	"crypto/sha1"
+	"encoding/base64"
 	"fmt"
 	"math/rand"
 	"strings"
@@ -10,11 +12,11 @@ import (
 
 // Resp is a generated handshake response with its derivation.
 type Resp struct {
-	Proto   string
-	Status  string // status token
-	Reason  string
-	EOL     string
-	Headers []Hdr
+	Proto    string
+	Status   string // status token
+	Reason   string
+	EOL      string
+	Headers  []Hdr
 	NoStatus bool // status line has a single token
 
 	Variant  map[string]string
@@ -57,7 +59,7 @@ var RespVariants = map[string][]string{
 	"reason":     {"Switching Protocols", "", "whatever you like", "101"},
 	"upgrade":    {"canonical", "absent", "case-name", "case-value", "blanks", "wrong", "empty", "dup-same", "dup-diff"},
 	"connection": {"canonical", "absent", "case-name", "case-value", "blanks", "wrong", "empty", "dup-same", "dup-diff", "list"},
-	"accept":     {"canonical", "absent", "case-name", "blanks", "other-key", "len27", "len29", "empty", "dup-same", "dup-diff", "lowercased"},
+	"accept":     {"canonical", "absent", "case-name", "blanks", "other-key", "len27", "len29", "empty", "dup-same", "dup-diff", "lowercased", "noncanonical-base64", "one-char-off", "urlsafe-alphabet", "sha1-of-key-only", "quoted"},
 	"protocol":   {"none", "first", "last", "unrequested", "valid-then-unrequested", "unrequested-then-valid", "two-valid", "empty-value", "list", "case-changed"},
 	"extensions": {"none", "first", "first-with-params", "all", "unoffered", "offered-then-unoffered", "malformed", "empty-value"},
 	"extra":      {"none", "some", "long-value", "no-colon-line"},
@@ -154,6 +156,35 @@ func BuildResp(rng *rand.Rand, choice map[string]string, in ReqInfo) *Resp {
 	case "len29":
 		add("Sec-WebSocket-Accept", " "+acc+"=")
 		v.Reject("accept of 29 chars")
+	case "noncanonical-base64":
+		// the 27th character carries four data bits and two padding bits: setting the padding bits gives a
+		// different TEXT that a lenient base64 decoder maps to the same 20 bytes
+		const alpha = "ABCDEFGHIJKLMNOPQRSTUVWXYZabcdefghijklmnopqrstuvwxyz0123456789+/"
+		i := strings.IndexByte(alpha, acc[26])
+		add("Sec-WebSocket-Accept", " "+acc[:26]+string(alpha[i|(1+rng.Intn(3))])+"=")
+		v.Reject("accept spelled as a non-canonical base64 form of the right hash")
+	case "one-char-off":
+		const alpha = "ABCDEFGHIJKLMNOPQRSTUVWXYZabcdefghijklmnopqrstuvwxyz0123456789+/"
+		k := rng.Intn(27)
+		ch := alpha[rng.Intn(64)]
+		for ch == acc[k] {
+			ch = alpha[rng.Intn(64)]
+		}
+		add("Sec-WebSocket-Accept", " "+acc[:k]+string(ch)+acc[k+1:])
+		v.Reject("accept differing in one character")
+	case "urlsafe-alphabet":
+		u := strings.NewReplacer("+", "-", "/", "_").Replace(acc)
+		add("Sec-WebSocket-Accept", " "+u)
+		if u != acc {
+			v.Reject("accept in the URL-safe base64 alphabet")
+		}
+	case "sha1-of-key-only":
+		sum := sha1.Sum([]byte(in.Key))
+		add("Sec-WebSocket-Accept", " "+base64.StdEncoding.EncodeToString(sum[:]))
+		v.Reject("accept computed without the GUID")
+	case "quoted":
+		add("Sec-WebSocket-Accept", " \""+acc+"\"")
+		v.Reject("accept value in quotes")
 	case "lowercased":
 		if strings.ToLower(acc) == acc {
 			add("Sec-WebSocket-Accept", " "+acc)
